@@ -473,6 +473,7 @@ func CrashMain(args []string) error {
 	workers := fl.Int("workers", 8, "parallel children")
 	torn := fl.Int("torn", 2, "random torn-write offsets per snapshot (in addition to 0, 1, n/2, n-1)")
 	seed := fl.Int64("seed", 1, "seed")
+	loadSnaps := fl.Int("loadsnaps", 4, "load faults (read of the cache file fails at start-up) on the first n snapshots")
 	if err := fl.Parse(args); err != nil {
 		return err
 	}
@@ -574,6 +575,10 @@ func CrashMain(args []string) error {
 			"old_hash": oldP.Hash(), "new_hash": newP.Hash(), "old_ne_new": oldP.Hash() != newP.Hash(), "window_calls": wcalls,
 			"feat": oldP.Features()})
 		x.emit(touchRecord(s.Name, s.Variant, res.calls, ino0 != ino1))
+		if si < *loadSnaps {
+			name, old := s.Name, oldP
+			extra = append(extra, func() { x.loadFaults(src, name, old) })
+		}
 		if tmpName != "" {
 			si, name, variant := si, s.Name, s.Variant
 			extra = append(extra, func() { x.syntheticLeftovers(src, name, variant, tmpName, si, *seed*101+int64(si)) })
